@@ -89,7 +89,7 @@ def norm(src):
 
 # target forms the property says are "always rendered rather than dropped"; for every other form
 # (walrus / arithmetic in a subscript, keyword call, slice) varname may legitimately be None
-SUPPORTED = {"name", "attr", "sub", "subname", "tuple", "star", "call_sub", "nested_attr", "list", "nested_unpack",
+SUPPORTED = {"maybe_attr", "maybe_sub", "maybe_unpack", "name", "attr", "sub", "subname", "tuple", "star", "call_sub", "nested_attr", "list", "nested_unpack",
              "star_mid", "sub_chain", "attr_sub", "call_args", "star_first", "tuple_attr_sub", "global_name"}
 
 
@@ -676,6 +676,12 @@ class R:
             return "v%d" % k, None
         if form == "attr":
             return "ns.a%d" % k, None
+        if form == "maybe_attr":      # rooted in a local the compiler cannot prove bound (LOAD_FAST_CHECK on 3.12)
+            return "mns.a%d" % k, None
+        if form == "maybe_sub":
+            return "mdct['k%d']" % k, None
+        if form == "maybe_unpack":
+            return "(mu%d, *mdct['r%d'])" % (k, k), "(1, 2, 3)"
         if form == "nested_attr":
             return "ns.sub.a%d" % k, None
         if form == "sub":
@@ -889,6 +895,10 @@ class R:
                 self.emit(1, "eqdecoy%d = MEq(%d)" % (it["m"], it["m"]))
         self.emit(1, "ns = NS(); ns.sub = NS(); ns.sub.slots = {}; dct = S.dct; key = 'kk'; lst = [0, 1, 2, 3]; "
                      "grid = [[0, 0], [0, 0]]")
+        if any(str(it.get("target", "")).startswith("maybe_") for it in _all_items(self.p["body"])):
+            # bound on every path that is ever taken, but not provably so
+            self.emit(1, "if c is not None:")
+            self.emit(2, "mns = NS(); mdct = {}")
         self.block(self.p["body"], 1)
         if self.kind in ("gen", "agen"):
             self.emit(1, "yield ['end', 0]")
@@ -995,6 +1005,9 @@ def observe_suspended(obj, kind, where, via=None):
         root = obj if PY >= (3, 11) else frame
         tracked = [m for m, _e in S.sh] + [obj, frame] + _stack_methods(root)
         retention_check(lambda: extract(obj), tracked, where)
+        # the frame of a suspended target named as the outer end of a slice of the running stack: it is running nowhere,
+        # the documented result is that one frame plus an error - and nothing may be kept of it afterwards either
+        retention_check(lambda: extract_since(frame), tracked, where + ["as-slice-of-a-suspended-frame"])
         del tracked
     if "inject" in S.modes and S.sh and S.inject_points > 0:
         S.inject_points -= 1
